@@ -214,6 +214,7 @@ def run(ck):
                    "up to 2^32-size (boundary classes 0, 0xFFFF/0x10000 crossings, 2^24, 2^32-len); bytes at the same absolute addresses; non-trivial = distinct layout")
     for k in range(ck.budget(120, 3000)):
         nseg = rng.randint(1, 4)
+        ascii_case = k == 0  # one all-ASCII BIN payload per run keeps the known finding visible
         base = rng.choice([0, 0x10, 0xFFF0, 0xFFFF, 0x10000, 0xFFFFF0, 0x1000000, 0x0800_0000, 0xFFFF_F000, rng.getrandbits(32)])
         segs, pos = [], 0
         for _ in range(nseg):
@@ -221,6 +222,8 @@ def run(ck):
             ln = rng.choice([1, 2, 15, 16, 17, 32, 33, 255, 256, rng.randrange(1, 600)])
             segs.append((pos, bytes(rng.getrandbits(8) for _ in range(ln))))
             pos += ln
+        if ascii_case:
+            segs, pos = [(0, b"a2")], 2
         if base + pos > 0xFFFFFFFF:
             base = 0xFFFFFFFF - pos + 1
         root = BinaryImage("root", offset=base)
@@ -238,13 +241,17 @@ def run(ck):
                 sf.expect(False, (base, [(o, hexs(d)) for o, d in segs], fmt), "save_binary_image raised", sv)
                 continue
             ld = pyres(BinaryImage.load_binary_image, path)
+            # known finding: a BIN file whose whole content is printable ASCII is sniffed as a (malformed) text format
+            texty = fmt == "BIN" and all(32 <= c < 127 or c in (9, 10, 13) for c in root.export())
             if ld[0] != "ok":
-                sf.expect(False, (base, [(o, hexs(d)) for o, d in segs], fmt), "load_binary_image raised on a file SPSDK wrote", ld)
+                sf.expect(False, (base, [(o, hexs(d)) for o, d in segs], fmt), "load_binary_image raised on a file SPSDK wrote", ld,
+                          finding="C16-bin-content-looks-like-text" if texty else None)
                 continue
             img2 = ld[1]
             data2 = img2.export()
             if fmt == "BIN":
-                sf.expect(data2 == root.export(), (base, segs, fmt), "BIN round trip changed the bytes")
+                sf.expect(data2 == root.export(), (base, segs, fmt), "BIN round trip changed the bytes",
+                          finding="C16-bin-content-looks-like-text" if texty else None)
             else:
                 start = img2.absolute_address
                 first = min(mem)
